@@ -475,4 +475,245 @@ theorem lambda_renamed_counterexample :
 
 example : ∃ w, decorate specAll 9 = .ok w ∧ w.name = nm "f" ∧ w.wrapped = some 1 := ⟨_, rfl, by decide, rfl⟩
 
+/-! ### `Timer.labels`: late labelling of a timer on a labelled parent (part (c) of the model)
+
+`with HISTOGRAM.time() as t: …; t.labels('a')`.  The block theorems quantify over ARBITRARY bodies (`body : … → LSt →
+Outcome × LSt`: any nesting, any further timers, any exceptions); what they need from the body is only the value of THIS
+Timer's `_metric` when the body is done. -/
+
+/-- what the theorems below read from `Timer.labels`, `Timer.__init__`, `_new_timer` and `__enter__` -/
+theorem timer_labels_source_facts :
+    timerLabelsRebindsSelf = true ∧ timerLabelsForwardsArgs = true ∧ timerLabelsForwardsKw = true ∧
+    timerLabelsReturnsNone = true ∧ newTimerCopiesMetric = true ∧ timerEnterReturnsSelf = true ∧
+    timerInitStoresMetric = true := by decide
+
+private theorem fwd_eq (a : LArgs) :
+    (⟨if timerLabelsForwardsArgs then a.pos else [], if timerLabelsForwardsKw then a.kw else []⟩ : LArgs) = a := by
+  cases a; rfl
+
+/-- **`labels()` re-binds the Timer it is called on**: `t.labels(*args, **kw)` hands ALL its arguments to
+`t._metric.labels`; when that returns child `c`, `t._metric` is `c` afterwards, nothing else changes and the call returns
+`None`; when it raises, the `ValueError` comes out of `t.labels(…)` (an exception of the body) and `t` is untouched. -/
+theorem timer_labels_rebinds (tid : Nat) (a : LArgs) (s : LSt) :
+    timerLabels tid a s =
+      match metricLabels (s.timers tid).metric a with
+      | .ok c => (.ret noneVal, { s with timers := upd s.timers tid { s.timers tid with metric := c } })
+      | .error _ => (.raise libValueError, s) := by
+  unfold timerLabels
+  simp only [fwd_eq]
+  cases metricLabels (s.timers tid).metric a <;> simp [timerLabelsRebindsSelf]
+
+/-- … and no other Timer object, no observation, no clock reading: in particular labelling a per-call / per-block Timer
+never changes the decorator-level Timer it was copied from, nor the other way round -/
+theorem timer_labels_is_frame (tid : Nat) (a : LArgs) (s : LSt) :
+    (timerLabels tid a s).2.obs = s.obs ∧ (timerLabels tid a s).2.clock = s.clock ∧
+    (timerLabels tid a s).2.next = s.next ∧ (timerLabels tid a s).2.log = s.log ∧
+    ((timerLabels tid a s).2.timers tid).cb = (s.timers tid).cb ∧
+    ∀ t, t ≠ tid → (timerLabels tid a s).2.timers t = s.timers t := by
+  rw [timer_labels_rebinds]
+  cases metricLabels (s.timers tid).metric a <;> simp [upd]
+  intro t ht; simp [ht]
+
+/-- which child: by position the values in order, by keyword the values in the order of the label NAMES; wrong count, wrong
+names, both kinds at once, a metric without label names and a child ("can not chain calls to .labels()") raise -/
+theorem metric_labels_cases (m : Nat) (n : Nat) (ns : List Nat) (a : LArgs) :
+    metricLabels (.plain m) a = .error .valueError ∧ (∀ vs, metricLabels (.child m vs) a = .error .valueError) ∧
+    (a.kw = [] → a.pos.length = (n :: ns).length → metricLabels (.parent m (n :: ns)) a = .ok (.child m a.pos)) ∧
+    (a.kw = [] → a.pos.length ≠ (n :: ns).length → metricLabels (.parent m (n :: ns)) a = .error .valueError) ∧
+    (a.kw ≠ [] → a.pos ≠ [] → metricLabels (.parent m (n :: ns)) a = .error .valueError) := by
+  refine ⟨rfl, fun _ => rfl, ?_, ?_, ?_⟩
+  · intro hk hl; simp [metricLabels, hk, hl]
+  · intro hk hl; simp [metricLabels, hk]; simpa using hl
+  · intro hk hp; simp [metricLabels, hk, hp]
+
+example : metricLabels (.parent 3 [0, 1]) ⟨[], [(1, 8), (0, 7)]⟩ = .ok (.child 3 [7, 8]) ∧
+    metricLabels (.parent 3 [0, 1]) ⟨[7, 8], []⟩ = .ok (.child 3 [7, 8]) ∧
+    metricLabels (.parent 3 [0, 1]) ⟨[], [(1, 8), (2, 7)]⟩ = .error .valueError ∧
+    metricLabels (.parent 3 [0, 1]) ⟨[], [(1, 8)]⟩ = .error .valueError := by decide
+
+private theorem metricLabels_ok_child {r : MRef} {a : LArgs} {c : MRef} (hm : metricLabels r a = .ok c) :
+    ∃ m vs, c = .child m vs := by
+  cases r with
+  | plain m => cases hm
+  | child m vs => cases hm
+  | parent m names =>
+    simp only [metricLabels] at hm
+    split at hm
+    · cases hm
+    · split at hm
+      · cases hm
+      · split at hm
+        · split at hm
+          · cases hm; exact ⟨_, _, rfl⟩
+          · cases hm
+        · split at hm
+          · cases hm; exact ⟨_, _, rfl⟩
+          · cases hm
+
+/-
+Statement asked for ("the observation goes to the child addressed by the LAST labels() call inside the block") is FALSE
+for the code as it is: `MetricWrapperBase.labels` refuses a child, so after one successful `t.labels(…)` every further
+`t.labels(…)` raises ValueError inside the body and leaves `t._metric` where it is — the FIRST successful call decides.
+-/
+/-- **At most one successful `labels()` per Timer**: once `t.labels(…)` has returned, any further `t.labels(…)` raises
+`ValueError` and changes nothing. -/
+theorem timer_labels_twice_raises (tid : Nat) (a a' : LArgs) (s : LSt) (h : (timerLabels tid a s).1 = .ret noneVal) :
+    timerLabels tid a' (timerLabels tid a s).2 = (.raise libValueError, (timerLabels tid a s).2) := by
+  have h1 := timer_labels_rebinds tid a s
+  cases hm : metricLabels (s.timers tid).metric a with
+  | error e => simp only [hm] at h1; rw [h1] at h; cases h
+  | ok c =>
+    obtain ⟨m, vs, rfl⟩ := metricLabels_ok_child hm
+    simp only [hm] at h1
+    rw [h1, timer_labels_rebinds]
+    simp [upd, metricLabels]
+
+private theorem labelledExit_observable (tid : Nat) (start : Int) (rb : Outcome × LSt)
+    (h : (rb.2.timers tid).metric.observable = true) :
+    labelledExit tid start rb
+      = (rb.1, { rb.2 with clock := rb.2.clock.tick.2,
+                           obs := ⟨(rb.2.timers tid).metric, (rb.2.timers tid).cb,
+                                   idealDuration start rb.2.clock.tick.1⟩ :: rb.2.obs }) := by
+  unfold labelledExit
+  simp only [h, if_true, duration_eq_ideal, timerCallbackWhen, whenHolds, timerExitSuppresses, suppress,
+    Bool.false_and, Bool.false_eq_true, if_false]
+
+private theorem labelledExit_unobservable (tid : Nat) (start : Int) (rb : Outcome × LSt)
+    (h : (rb.2.timers tid).metric.observable = false) :
+    labelledExit tid start rb = (.raise libValueError, { rb.2 with clock := rb.2.clock.tick.2 }) := by
+  unfold labelledExit
+  simp only [h, timerCallbackWhen, whenHolds, if_true, Bool.false_eq_true, if_false]
+
+/-- `with r.time() as t: body(t)` — the state the body starts in: a new Timer object `s.next` holding `(r, k)`, one
+clock reading consumed -/
+def blockStart (r : MRef) (k : TimeKind) (s : LSt) : LSt :=
+  { s with next := s.next + 1, timers := upd s.timers s.next ⟨r, k⟩, clock := s.clock.tick.2 }
+
+/-- **Exactly one observation, on the child chosen inside the block**: when the block's Timer refers to an observable
+metric at the end of the body — a labelled parent that the body labelled, or a plain metric / child from the start — the
+`with` statement adds exactly one observation AFTER everything the body observed, on the metric the Timer refers to THEN,
+with the Timer's own callback (`Gauge.set` / `Summary.observe` / `Histogram.observe`) and duration `max(exit reading −
+entry reading, 0)`; it reads the clock once on entry and once on exit; and the body's returned object / exception object
+comes out unchanged. -/
+theorem labelled_block_exact (r : MRef) (k : TimeKind) (body : Nat → LSt → Outcome × LSt) (s : LSt)
+    (hobs : ((body s.next (blockStart r k s)).2.timers s.next).metric.observable = true) :
+    withTime r k body s
+      = ((body s.next (blockStart r k s)).1,
+         let rb := body s.next (blockStart r k s)
+         { rb.2 with clock := rb.2.clock.tick.2,
+                     obs := ⟨(rb.2.timers s.next).metric, (rb.2.timers s.next).cb,
+                             idealDuration s.clock.tick.1 rb.2.clock.tick.1⟩ :: rb.2.obs }) := by
+  show labelledExit s.next s.clock.tick.1 (body s.next (blockStart r k s)) = _
+  rw [labelledExit_observable _ _ _ hobs]
+
+/-
+Transparency ("same return value, same exception object") is FALSE on a labelled parent that is never labelled: forced
+hypothesis `hobs` above; the real code was run at the excluded point (harness signature C16:timer-labels-unlabelled-parent).
+-/
+/-- **A labelled parent never labelled inside the block**: `__exit__` raises `ValueError` out of the `with` statement —
+whatever the body did: a returned value is lost, an exception the body raised is replaced — and the block records
+nothing (the observations are the body's; the clock was still read). -/
+theorem unlabelled_parent_raises_at_exit (r : MRef) (k : TimeKind) (body : Nat → LSt → Outcome × LSt) (s : LSt)
+    (hobs : ((body s.next (blockStart r k s)).2.timers s.next).metric.observable = false) :
+    withTime r k body s
+      = (.raise libValueError,
+         let rb := body s.next (blockStart r k s)
+         { rb.2 with clock := rb.2.clock.tick.2 }) := by
+  show labelledExit s.next s.clock.tick.1 (body s.next (blockStart r k s)) = _
+  rw [labelledExit_unobservable _ _ _ hobs]
+
+/-- kernel-checked witness that the model exhibits both failures: body returns 5 / raises KeyError#7 on a never labelled
+parent — `ValueError` comes out, nothing is recorded -/
+theorem unlabelled_parent_counterexample :
+    let s0 : LSt := ⟨⟨[1, 4], 0⟩, [], fun _ => ⟨.plain 0, .observe⟩, 0, []⟩
+    (execStmt [] (.block (.withTime (.parent 1 [0]) .observe) .nil (.ret 5) false) s0).1 = .raise libValueError ∧
+    (execStmt [] (.block (.withTime (.parent 1 [0]) .observe) .nil (.raise ⟨7, .keyError⟩) false) s0).1
+      = .raise libValueError ∧
+    (execStmt [] (.block (.withTime (.parent 1 [0]) .observe) .nil (.ret 5) false) s0).2.obs = [] := by decide
+
+/-- entry 1, exit 4: `with P.time() as t: t.labels('a'); t.labels('b')` — the second call raises inside the body, the block
+still observes 3 on child `a` and the body's ValueError comes out -/
+example :
+    let s0 : LSt := ⟨⟨[1, 4], 0⟩, [], fun _ => ⟨.plain 0, .observe⟩, 0, []⟩
+    let r := execStmt [] (.block (.withTime (.parent 1 [0]) .observe)
+      (.cons (.labels 0 ⟨[10], []⟩) (.cons (.labels 0 ⟨[11], []⟩) .nil)) (.ret 5) false) s0
+    r.1 = .raise libValueError ∧ r.2.obs = [⟨.child 1 [10], .observe, 3⟩] := by decide
+
+/-- nesting: the inner block labels the OUTER timer (`up = 1`) by keyword and itself by position; clock 0, 10, 9, 30 -/
+example :
+    let s0 : LSt := ⟨⟨[0, 10, 9, 30], 0⟩, [], fun _ => ⟨.plain 0, .observe⟩, 0, []⟩
+    let r := execStmt [] (.block (.withTime (.parent 1 [0]) .observe)
+      (.cons (.block (.withTime (.parent 2 [0, 1]) .set)
+        (.cons (.labels 1 ⟨[], [(0, 7)]⟩) (.cons (.labels 0 ⟨[8, 9], []⟩) .nil)) (.raise ⟨3, .keyboardInterrupt⟩) true) .nil)
+      (.ret 5) false) s0
+    r.1 = .ret 5 ∧ r.2.obs = [⟨.child 1 [7], .observe, 30⟩, ⟨.child 2 [8, 9], .set, 0⟩] ∧
+    r.2.log = [.ret 5, .raise ⟨3, .keyboardInterrupt⟩] := by decide
+
+/-- a decorated call starts in: a new Timer object `s.next`, a copy of the decorator-level Timer `d` as it is NOW -/
+def callStart (d : Nat) (s : LSt) : LSt :=
+  { s with next := s.next + 1, timers := upd s.timers s.next (s.timers d), clock := s.clock.tick.2 }
+
+private theorem callDeco_eq (d : Nat) (body : LSt → Outcome × LSt) (s : LSt) :
+    callDeco d body s = labelledExit s.next s.clock.tick.1 (body (callStart d s)) := by
+  unfold callDeco
+  simp only [timerCallFresh, newTimerIsNew, Bool.and_self, if_true]
+  rfl
+
+/-- **A decorated call observes on what the decorator-level Timer referred to AT CALL TIME**: `Timer.__call__` enters
+`self._new_timer()`, a new object built from the current `self._metric`.  Whatever the body does to the decorator-level
+Timer `d` — e.g. `T.labels(…)` — the running call is not affected: given only that the body does not touch the per-call
+object (it cannot reach it: the `with` has no `as`), the call adds exactly one observation, after the body's, on
+`(s.timers d).metric` with `d`'s callback and the ideal duration, and hands on the body's outcome. -/
+theorem decorated_call_observes_ref_at_call_time (d : Nat) (body : LSt → Outcome × LSt) (s : LSt)
+    (hframe : (body (callStart d s)).2.timers s.next = (callStart d s).timers s.next)
+    (hobs : (s.timers d).metric.observable = true) :
+    callDeco d body s
+      = ((body (callStart d s)).1,
+         let rb := body (callStart d s)
+         { rb.2 with clock := rb.2.clock.tick.2,
+                     obs := ⟨(s.timers d).metric, (s.timers d).cb, idealDuration s.clock.tick.1 rb.2.clock.tick.1⟩ :: rb.2.obs }) := by
+  have hc : (callStart d s).timers s.next = s.timers d := by simp [callStart, upd]
+  rw [callDeco_eq, labelledExit_observable _ _ _ (by rw [hframe, hc]; exact hobs), hframe, hc]
+
+/-- … on a labelled parent not labelled BEFORE the call, the call raises `ValueError` at exit and records nothing — also
+when the body itself labels the decorator-level Timer (too late for this call, in time for the next) -/
+theorem decorated_call_on_unlabelled_parent_raises (d : Nat) (body : LSt → Outcome × LSt) (s : LSt)
+    (hframe : (body (callStart d s)).2.timers s.next = (callStart d s).timers s.next)
+    (hobs : (s.timers d).metric.observable = false) :
+    callDeco d body s
+      = (.raise libValueError, let rb := body (callStart d s); { rb.2 with clock := rb.2.clock.tick.2 }) := by
+  have hc : (callStart d s).timers s.next = s.timers d := by simp [callStart, upd]
+  rw [callDeco_eq, labelledExit_unobservable _ _ _ (by rw [hframe, hc]; exact hobs)]
+
+/-- **The call itself writes no Timer object** but the new one: every Timer, the decorator-level one included, is after
+the call what the body left; together with `timer_labels_is_frame` (labelling object `t` changes only `t`): labelling
+per-call Timers never re-binds the decorator-level Timer, labelling the decorator-level Timer re-binds exactly the calls
+that START later (`decorated_call_observes_ref_at_call_time` with `timer_labels_rebinds`). -/
+theorem decorated_call_writes_no_timer (d : Nat) (body : LSt → Outcome × LSt) (s : LSt) :
+    (callDeco d body s).2.timers = (body (callStart d s)).2.timers ∧
+    ∀ t, t ≠ s.next → (callStart d s).timers t = s.timers t := by
+  refine ⟨?_, fun t ht => by simp [callStart, upd, ht]⟩
+  rw [callDeco_eq]
+  cases h : ((body (callStart d s)).2.timers s.next).metric.observable
+  · rw [labelledExit_unobservable _ _ _ h]
+  · rw [labelledExit_observable _ _ _ h]
+
+/-- decorator-level Timer 0 on labelled parent 1: call (raises ValueError, nothing recorded) ; `T.labels(l=7)` ; call
+(observes on child 7) ; a call whose body calls `T.labels(8)` (raises inside the body: already labelled; the call still
+observes on child 7 and hands on that ValueError) -/
+example :
+    let s0 : LSt := ⟨⟨[0, 1, 10, 12, 20, 25], 0⟩, [], fun _ => ⟨.parent 1 [0], .observe⟩, 1, []⟩
+    let r := execProg [] (.cons (.block (.callDeco 0) .nil (.ret 1) true)
+      (.cons (.labelsDeco 0 ⟨[], [(0, 7)]⟩) (.cons (.block (.callDeco 0) .nil (.raise ⟨2, .systemExit⟩) true)
+      (.cons (.block (.callDeco 0) (.cons (.labelsDeco 0 ⟨[8], []⟩) .nil) (.ret 3) true) .nil)))) (.ret 9) s0
+    r.1 = .ret 9 ∧ r.2.obs = [⟨.child 1 [7], .observe, 5⟩, ⟨.child 1 [7], .observe, 2⟩] ∧
+    r.2.log = [.raise libValueError, .raise ⟨2, .systemExit⟩, .raise libValueError] := by decide
+
+/-- the body of the FIRST call labels the decorator-level Timer: that call still fails at exit, the next one observes -/
+example :
+    let s0 : LSt := ⟨⟨[0, 1, 10, 12], 0⟩, [], fun _ => ⟨.parent 1 [0], .set⟩, 1, []⟩
+    let r := execProg [] (.cons (.block (.callDeco 0) (.cons (.labelsDeco 0 ⟨[7], []⟩) .nil) (.ret 1) true)
+      (.cons (.block (.callDeco 0) .nil (.ret 2) false) .nil)) (.ret 9) s0
+    r.2.obs = [⟨.child 1 [7], .set, 2⟩] ∧ r.2.log = [.ret 2, .raise libValueError] := by decide
+
 end PromVerif.Props.C16
